@@ -57,12 +57,18 @@ BAD = {
     "bad_register": ["  mov.w r99, r5"],
     "set_no_value": [".set foo_q ="],
     "binfile_missing": [".binfile \"no_such_file_q.bin\""],
+    "macro_too_few_args": [".macro two_q(a, b)", ".db a, b", ".endm", "two_q(1)"],
+    "macro_too_many_args": [".macro two_r(a, b)", ".db a, b", ".endm", "two_r(1, 2, 3)"],
+    "macro_no_close_paren": [".macro two_s(a, b)", ".db a, b", ".endm", "two_s(1, 2"],
+    "macro_args_missing": [".macro two_t(a, b)", ".db a, b", ".endm", "two_t"],
 }
 
 # combinations that can yield a VALID program and are therefore not corruptions
 EXCLUDE = {("else_without_if", "if1"), ("else_without_if", "ifdef_else"), ("endif_without_if", "if1"),
            ("endif_without_if", "ifdef_else"), ("duplicate_label", "scope"), ("macro_unterminated", "macro"),
            ("label_is_macro", "macro"), ("label_is_macro", "scope"), ("endr_without_repeat", "repeat"),
+           ("macro_too_few_args", "macro"), ("macro_too_many_args", "macro"), ("macro_no_close_paren", "macro"),
+           ("macro_args_missing", "macro"),
            # a macro body is stored, not assembled, until invoked; structural directives in it are out of scope
            ("comment_unterminated", "macro"), ("quote_unterminated", "macro")}
 
